@@ -142,6 +142,13 @@ Proof.
     + split; [|split; auto]. intros b [<-|I]; [lia|]. specialize (H1 b I). lia.
 Qed.
 
+Lemma ssortedb_ok l : ssortedb l = true -> ssorted l.
+Proof.
+  induction l as [|a t IH]; cbn [ssortedb ssorted]; auto.
+  intros E. apply andb_true_iff in E. destruct E as [E1 E2]. split; [|apply IH; exact E2].
+  intros b I. rewrite forallb_forall in E1. apply Z.leb_le. apply E1. exact I.
+Qed.
+
 (* ---- the key discipline is kept by every operation of the spec ---- *)
 Lemma keys_ok_nil k : keys_ok k [].
 Proof. split; intros _; cbn; [constructor | auto]. Qed.
@@ -274,6 +281,17 @@ Proof.
     destruct (if need_key k then sarg_key s ka else Some 0); cbn [snd]; auto.
     destruct (if need_val k then sarg_val s va else Some 0); cbn [snd]; auto.
     apply Forall_set_at; auto. apply keys_ok_ins. auto.
+  - pose proof (G x) as Gx. destruct (sget s x) as [[k l]|]; cbn [snd]; auto.
+    destruct (can_hint k) eqn:CH; cbn [snd]; auto.
+    destruct (sarg_key s ka) as [kz|]; cbn [snd]; auto.
+    destruct (sarg_val s va) as [vz|]; cbn [snd]; auto.
+    destruct (hint_tie k (asel k l) (pos_idx p (length l)) kz) eqn:TIE; cbn [andb snd]; auto.
+    destruct (ssortedb (insert_at (S (pos_idx p (length l)) + j) kz (asel k l))) eqn:SB; cbn [snd]; auto.
+    apply Forall_set_at; auto.
+    assert (HK : has_key k = true) by (destruct k; cbn in CH; try discriminate; reflexivity).
+    split; intros Q.
+    + unfold hint_tie in TIE. rewrite Q in TIE. discriminate.
+    + rewrite asel_insert_at, HK, mk_anode_sel by auto. apply ssortedb_ok. exact SB.
 Qed.
 
 Lemma swf_init n : swf (sinit n).
